@@ -363,6 +363,19 @@ def run(ctx):
                f'interpreter and trips the tracker', py.where(w.stateful.module, mf.node))
     walk_order(ctx, py, w)
     tracker_compares_structurally(ctx, py, w)
+    # the serialising interpreter (plain or under the memoiser) means the same as the others only if what it writes is what the
+    # checker reads: the Instantiate operands pair id i with plug i, and the memoiser never needs a slot a one-byte operand cannot
+    # address (shared with C02)
+    from ..core import machine as M
+    from ..core.rustfacts import Rust
+    from . import c02, c05
+    r = Rust.get()
+    arms = M.rust_arms(r)
+    py_ops = c02.py_opcodes(py)
+    dec = c05.decode_table(r)
+    for meth in ('instantiate', 'instantiate_pattern'):
+        c02.method_row(ctx, w, meth, arms, py_ops, dec)
+    c02.slot_budget(ctx, py)
     super_calls_same_method(ctx, py)
     # an interpreter whose state is shared between its instances behaves differently from the others once a second instance
     # exists (its symbol numbering / memory continues): the instance state of every interpreter class is per instance
